@@ -231,8 +231,31 @@ class _Loader(importlib.machinery.SourceFileLoader):
 
 def _plain_hash(x):
     """Contract-free stand-in for ``hash`` inside wn._core (CrossHair's own patched
-    ``hash`` carries a contract that gets short-circuited to a random value)."""
-    return 0
+    ``hash`` carries a contract that gets short-circuited to a random value).
+
+    A structural model of the builtin: a deterministic function of the *value* (so equal
+    values hash alike, as the builtin guarantees) that is injective on the small tuples of
+    ints / short strings / None that wn hashes - which is what makes "equal entities hash
+    alike" a non-vacuous assertion: a ``__hash__`` that looks at a field ``__eq__`` ignores
+    yields different model hashes whenever that field differs.  Symbolic ints stay
+    symbolic (linear arithmetic); strings contribute their length and first 4 code points."""
+    if isinstance(x, tuple):
+        h = 7
+        for el in x:
+            h = h * 1000003 + _plain_hash(el)
+        return h
+    if x is None:
+        return -5
+    if isinstance(x, bool):
+        return 1 if x else 0
+    if isinstance(x, int):
+        return x + 0
+    if isinstance(x, str):
+        h = len(x)
+        for ch in x[:4]:
+            h = h * 1114112 + ord(ch)
+        return h
+    return x.__hash__()
 
 
 class _Finder(importlib.abc.MetaPathFinder):
